@@ -162,6 +162,36 @@ def check_case(case):
                         if got != ref:
                             r.violation("forms:Sg%d/%s:%s:%s:pos=%s" % (no, cc, lab, form, ",".join(map(str, pt))), "multiplicity of the group the caller asked for, however it was asked", ref, got)
                 r.nontrivial.add("forms:Sg%d/%s:m%d" % (no, cc, ref))
+            # valid extremes: the same dyadic positions far away from the origin cell (lattice shifts of 1e3 .. 1e6 cells, both signs)
+            for pt in ((F(0), F(0), F(0)), (F(1, 2), F(0), F(1, 4)), (F(1, 8), F(3, 8), F(5, 8))):
+                ref = len(O.orbit(ops, pt))
+                for K in ((1000, 0, -1000), (100000, -100000, 100000), (-1000000, 1000000, 3)):
+                    pf = np.array([float(pt[i]) + K[i] for i in range(3)])
+                    try:
+                        got = structure.multiplicity(pf, sgno=no, cell_choice=cc)
+                    except Exception as ex:
+                        got = repr(ex)
+                    r.evals += 1
+                    if got != ref:
+                        r.violation("forms:Sg%d/%s:pos=%s+%s" % (no, cc, ",".join(map(str, pt)), K), "multiplicity is invariant under lattice translations of any size", ref, got)
+            # a caller edits the arrays of an sg object of its own (e.g. keeps the point-group part only): later multiplicity calls are unaffected
+            from ..core import scribble
+
+            mine = sg.sg(sgno=no, cell_choice=cc)
+            for arr in (mine.rot, mine.trans):
+                scribble(arr)
+            try:
+                mine.trans[:] = 0
+            except Exception:  # noqa: BLE001
+                pass
+            pt = pts[2]
+            try:
+                got = structure.multiplicity(np.array([float(x) for x in pt]), sgno=no, cell_choice=cc)
+            except Exception as ex:
+                got = repr(ex)
+            r.evals += 1
+            if got != len(O.orbit(ops, pt)):
+                r.violation("forms:Sg%d/%s:after-edit-of-own-sg-object" % (no, cc), "multiplicity does not depend on edits a caller made to the arrays of another sg object", len(O.orbit(ops, pt)), got)
             variants(r, "forms:Sg%d/%s:position kinds" % (no, cc), structure.multiplicity, [[0.5, 0.0, 0.25], None, no, cc], 0, 0, 0)
             variants(r, "forms:Sg%d/%s:position kinds" % (no, cc), structure.multiplicity, [[0.0, 1.0, -1.0], None, no, cc], 0, 0, 0)
         r.states = case["hi"] - case["lo"]
